@@ -127,3 +127,46 @@ def keygen_harness(rep, paths, which):
 def harnesses(rep, tier):
     paths = build.ir("serial64", "O0", crate="ed25519-dalek", features=["hazmat", "digest", "zeroize"], no_default=True, with_deps=True)
     return [lambda: keygen_harness(rep, paths, "sk"), lambda: keygen_harness(rep, paths, "esk")]
+
+def conversion_harness(rep, paths):
+    """C07: the Ed25519 -> X25519 key conversions.  SigningKey::to_scalar_bytes() is H(seed)[0..32] (unclamped), to_scalar() its clamped value,
+    VerifyingKey::to_montgomery() is to_montgomery(clamp(H(seed)[0..32]) * B): exactly the X25519 public key that x25519-dalek derives from
+    StaticSecret::from(to_scalar_bytes()) (C07 harness 'PublicKey::from(&StaticSecret)': to_montgomery(clamp(bytes) * B))."""
+    from checks.c07g import Phi, phi_intercept
+    t0 = time.time()
+    name = "SigningKey::to_scalar_bytes / to_scalar / VerifyingKey::to_montgomery"
+    rec = dict(harness="serial64/Ed25519 -> X25519 conversions: " + name, config="serial64", function=name, goals=[], bounds="all 2^256 seeds, all SHA-512 outputs (64 symbolic bytes)",
+               assumptions=["SHA-512 is a function of its input (uninterpreted)", "Scalar::from_bytes_mod_order, EdwardsPoint::mul_base per their contracts (C02, C04)"])
+    def goal(g, ok, kind="structural"): rec["goals"].append(dict(goal=g, verdict="unsat" if ok else "sat", solver_s=0.0, cases=1, solver_calls=0, kind=kind, nontrivial=True))
+    try:
+        mod = linked(paths); it = KSym(mod); phi_intercept(it)
+        seed = it.new_region("seed", 32); sb = [it.ctx.input("seed%d" % k, 0, 255) for k in range(32)]
+        for k in range(32): it.store(Ptr(seed.r, k), sb[k], 1)
+        o1 = it.new_region("scalar_bytes", 32); o2 = it.new_region("scalar", 32); o3 = it.new_region("mont", 32)
+        fn = [f for f in mod.funcs if re.search(r"4conv15vp_ed_to_x2551917h", f)][0]
+        it.call(fn, [seed, o1, o2, o3])
+        same = lambda cs, want: len(cs) == len(want) and all(c is not None and isinstance(c[0], Poly) and c[0].t == w.t for c, w in zip(cs, want))
+        goal("every SHA-512 computation is over exactly the 32 seed bytes (one distinct input)", len(it.hash_inputs) == 1 and same(it.hash_inputs[0], sb))
+        hb = it.hbytes[0] if it.hbytes else [ZERO] * 64
+        a = it.ctx.resolve(clamp_poly(it, hb))
+        goal("to_scalar_bytes() == H(seed)[0..32], unclamped", same(it.cells(o1, 32), hb[:32]))
+        sc = it.regions[o2.r].b.get(0)
+        goal("to_scalar() == clamp(H(seed)[0..32]) (reduced mod l)", sc is not None and isinstance(sc[0], SVal) and (it.ctx.resolve(sc[0].p) - a).is_zero(), kind="polynomial identity over the hash bytes")
+        cs = [it.regions[o3.r].b.get(k) for k in range(32)]
+        ph = cs[0][0] if cs[0] else None
+        okp = isinstance(ph, Phi) and all(c is not None and c[0] is ph and c[1] == k for k, c in enumerate(cs))
+        goal("verifying_key().to_montgomery() == to_montgomery(clamp(H(seed)[0..32]) * B): the X25519 public key of StaticSecret::from(to_scalar_bytes())",
+             okp and set(ph.g.c) <= {"B"} and (it.ctx.resolve(ph.g.c.get("B", ZERO)) - a).is_zero(), kind="polynomial identity over the hash bytes")
+        rec["status"] = "ok" if all(g["verdict"] == "unsat" for g in rec["goals"]) else "violation"
+        if rec["status"] != "ok": rec["why"] = [g["goal"] for g in rec["goals"] if g["verdict"] != "unsat"][0]
+        rec["ir_steps"] = it.steps
+    except Unsupported as e:
+        rec["status"] = "inconclusive"; rec["why"] = "unsupported IR: " + str(e)[:400]
+    except PanicReached as e:
+        rec["status"] = "violation"; rec["why"] = "panic reached: " + str(e)[:200]
+    rec["wall_s"] = round(time.time() - t0, 3)
+    rep.add(**rec); rep.functions.add(name); rep.configs.add("serial64")
+
+def conversion_harnesses(rep, tier):
+    paths = build.ir("serial64", "O0", crate="ed25519-dalek", features=["hazmat", "digest", "zeroize"], no_default=True, with_deps=True)
+    return [lambda: conversion_harness(rep, paths)]
